@@ -34,7 +34,9 @@
 (* N (entity = "" for tokens that mention nothing).  The property is then: *)
 (* after a rename step that turns N0 into N1,                              *)
 (*   C16.values   every cell of every column (keyed by identity) is what   *)
-(*                it was;                                                  *)
+(*                it was - as the engine reports it after the step, and as *)
+(*                a from-scratch recalculation of the renamed document     *)
+(*                gives it;                                                *)
 (*   C16.text     every formula text is Cat(Toks(N1, tree)) for the SAME   *)
 (*                tree - i.e. exactly the tokens mentioning the renamed    *)
 (*                entity changed (OnlyMentionsChange is a theorem of the   *)
@@ -44,8 +46,8 @@
 (*                is valid and unused), and the engine's schema agrees     *)
 (*                with its metadata; or the step was rejected and the      *)
 (*                document is what it was;                                 *)
-(*   C16.raised   the step raised something that is not a rejection, or    *)
-(*                the document could not be read afterwards;               *)
+(*   C16.raised   the document could not be read (or recalculated) after   *)
+(*                the step;                                                *)
 (*   C16.undo     undoing the step restores names, texts and values.       *)
 (* TLC strings support \o, Len and SubSeq: text is handled as strings.     *)
 (***************************************************************************)
@@ -269,7 +271,7 @@ ColPaths   == {"RenameColumn", "colId", "label", "label_untied", "retie"}
 TablePaths == {"RenameTable", "tableId", "title"}
 
 \* in  = [sch, target, path, req]
-\* out = [fail, exc, names0, names1, names2, texts0, texts1, texts2, vals0, vals1, vals2,
+\* out = [fail, exc, names0, names1, names2, texts0, texts1, texts2, vals0, vals1, vals1r, vals2,
 \*        dig0, dig1, cons1, undo_exc]      (the maps are keyed by identity)
 Mark(cond, name) == IF cond THEN {} ELSE {name}
 
@@ -311,17 +313,20 @@ BadTexts(in, texts, N, texts0) ==
 Unchanged1(o) ==
   o.names1 = o.names0 /\ o.texts1 = o.texts0 /\ o.vals1 = o.vals0 /\ o.dig1 = o.dig0
 
-Rejections == {"ValueError"}
-
-Clauses(in, o) ==
+\* ft / fv: the formula columns with an inadmissible text / the columns whose cells changed
+ClausesFrom(in, o, ft, fv) ==
   IF o.fail # "" THEN {"C16.raised"}
-  ELSE IF o.exc # ""
-  THEN Mark(o.exc \in Rejections, "C16.raised") \cup Mark(Unchanged1(o), "C16.applied")
+  ELSE IF o.exc # "" THEN Mark(Unchanged1(o), "C16.applied")      \* rejected: nothing may have changed
   ELSE Mark(AppliedOk(in, o), "C16.applied")
-       \cup Mark(BadVals(o.vals0, o.vals1) = {}, "C16.values")
-       \cup Mark(BadTexts(in, o.texts1, o.names1, o.texts0) = {}, "C16.text")
+       \cup Mark(fv = {}, "C16.values")
+       \cup Mark(ft = {}, "C16.text")
        \cup Mark(o.undo_exc = "" /\ o.names2 = o.names0 /\ o.texts2 = o.texts0 /\ o.vals2 = o.vals0,
                  "C16.undo")
+
+Clauses(in, o) ==
+  IF o.fail # "" \/ o.exc # "" THEN ClausesFrom(in, o, {}, {})
+  ELSE ClausesFrom(in, o, BadTexts(in, o.texts1, o.names1, o.texts0),
+                   BadVals(o.vals0, o.vals1) \cup BadVals(o.vals0, o.vals1r))
 
 Ok(in, o) == Clauses(in, o) = {}
 
